@@ -46,7 +46,9 @@ let run (lines : string list) =
                let c = n_of_string c and n = n_of_string n in
                let (r, p') = sp_step !st (SCalloc (c, n)) in
                st := p';
-               let z = match r with Some off -> if all_zero p'.sp_mem off (N.mul c n) then " zero=1" else " zero=0" | None -> "" in
+               let z = match r with Some off -> (* a product beyond the buffer cannot be all zero inside it (and must not be enumerated) *)
+                 let prod = N.mul c n in
+                 if N.leb prod (lenN p'.sp_mem) && all_zero p'.sp_mem off prod then " zero=1" else " zero=0" | None -> "" in
                (* ideal: the mathematical product must fit *)
                let prod = N.mul c n in
                let ir = if N.leb prod big then ideal_alloc prod else "NULL" in
